@@ -8,7 +8,7 @@ from engine import zone
 from engine.dbm import INF
 
 LEVEL = "other"
-MIN_OBLIGATIONS = 60
+MIN_OBLIGATIONS = 45
 THOROUGH_CONFIGS = ("headeronly",)
 TECHNIQUE = ("abstract interpretation over the clang AST (zone / difference-bound-matrix domain with boolean partitioning, widening and narrowing, lambda inlining, "
              "field / parameter / return invariants to a fixpoint): bounds obligations on every unchecked element access, ranking-function synthesis per loop, "
@@ -32,7 +32,7 @@ ROOT_METHODS = (("QtLogger::Formatter", "format"), ("QtLogger::Filter", "filter"
 ROOT_NAMES = ("PatternFormatter::PatternFormatter", "PatternFormatterPrivate::PatternFormatterPrivate", "PatternFormatterPrivate::parsePattern",
               "CategoryFilter::CategoryFilter", "CategoryFilter::parseRules", "RegExpFilter::RegExpFilter")
 RULE_OF = {"access": "C14-O4", "term": "C14-O5", "alloc": "C14-O1", "loopbd": "C14-O1"}
-MIN_BY_KIND = {"access": 30, "term": 22, "alloc": 5}
+MIN_BY_KIND = {"access": 20, "term": 18, "alloc": 4}
 # regular expressions whose pattern is user text by contract (the API takes a regular expression)
 REGEX_BY_CONTRACT = {"RegExpFilter::RegExpFilter": "RegExpFilter's argument is a regular expression by contract (the property quantifies over a fixed menu of expressions)"}
 
